@@ -184,7 +184,7 @@ def run_drivers(prop, tier, seed, names=None, only=None, max_procs=None):
         for c in range(d.chunks):
             if only and only.get("chunk") is not None and only["chunk"] != c:
                 continue
-            tmo = d.timeout * (1 if tier == "quick" else 6)
+            tmo = d.timeout * (3 if tier == "quick" else 8)  # generous: only reached on an overloaded machine
             jobs.append((p, name, c, d.chunks, seed, tier, only.get("key") if only else None, tmo))
     max_procs = max_procs or int(os.environ.get("VERIF_PROCS", "14"))
     ctx = mp.get_context("fork")
